@@ -1053,3 +1053,53 @@ pub fn subq_case(rep: &Report, rng: &mut Rng, i: u64, pseed: u64) {
         Err(p) => record_violation(rep, &format!("panic/{name}/{ty}"), ty, name, json!({"type": ty, "api": name, "input_tree": input.show(), "policy_seed": pseed, "panic": p, "expected_by_contract": exp.to_json()})),
     }
 }
+
+// ---------------------------------------------------------------------------------------
+// Fixed minimal cases (seed independent): one Jump answered by the bottom-up callback
+// ---------------------------------------------------------------------------------------
+
+/// option index of (Jump, unchanged) in the transforming option table
+const T_JUMP: u8 = 2;
+
+fn fixed_expr(rep: &Report, name: &str, e: Expr, jump_at: &Expr) {
+    let table = vec![(UP, jump_at.key(), T_JUMP)];
+    let opts = Api::TransformUp.opts();
+    let (exp, _) = reference(Api::TransformUp, e.clone(), Policy::Table { opts, table: table.clone() });
+    let got = super::super::real(Api::TransformUp, e.clone(), Policy::Table { opts, table: table.clone() });
+    rep.case(fp_mix(fp_str(name), e.key()), true);
+    rep.count("fixed_cases", 1);
+    super::super::judge(rep, Api::TransformUp, "transform_up", "Expr", &e, &exp, &got, || Policy::Table { opts, table: table.clone() });
+}
+
+fn fixed_subq(rep: &Report, name: &str, plan: LogicalPlan, jump_at: &LogicalPlan) {
+    let table = vec![(UP, plan_key(jump_at), T_JUMP)];
+    let opts = Api::TransformUp.opts();
+    let input = SubqPlan { plan: plan.clone(), inputs: true };
+    let (exp, _) = reference(Api::TransformUp, input.dup(), Policy::Table { opts, table: table.clone() });
+    let got = real_subq(3, plan, Policy::Table { opts, table: table.clone() });
+    rep.case(fp_mix(fp_str(name), input.key()), true);
+    rep.count("fixed_cases", 1);
+    judge_opt(rep, Api::TransformUp, "transform_up_with_subqueries", "LogicalPlan+subqueries", &input, &exp, &got, || Policy::Table { opts, table: table.clone() }, false);
+}
+
+pub fn fixed_cases(rep: &Report) {
+    let col = |n: &str| Expr::Column(Column::new_unqualified(n));
+    // a + b: the Jump answered for b bypasses the callback of the parent
+    fixed_expr(rep, "binary", col("a") + col("b"), &col("b"));
+    // CASE WHEN a THEN b ELSE c END, Jump at c / CASE WHEN a THEN b END, Jump at b
+    let full = Expr::Case(Case::new(None, vec![(Box::new(col("a")), Box::new(col("b")))], Some(Box::new(col("c")))));
+    fixed_expr(rep, "case-else", full, &col("c"));
+    let no_else = Expr::Case(Case::new(None, vec![(Box::new(col("a")), Box::new(col("b")))], None));
+    fixed_expr(rep, "case-no-else", no_else, &col("b"));
+    fixed_expr(rep, "in-empty-list", Expr::InList(InList::new(Box::new(col("a")), vec![], false)), &col("a"));
+
+    let values = |v: i64| LogicalPlanBuilder::values(vec![vec![lit(v)]]).unwrap().build().unwrap();
+    let sq = |p: LogicalPlan| Subquery { subquery: Arc::new(p), outer_ref_columns: vec![], spans: Spans::new() };
+    // a leaf plan whose expression holds a subquery: Jump at the subquery root
+    let leaf = LogicalPlanBuilder::values(vec![vec![Expr::ScalarSubquery(sq(values(4)))]]).unwrap().build().unwrap();
+    fixed_subq(rep, "leaf-with-subquery", leaf, &LogicalPlan::Subquery(sq(values(4))));
+    // Filter: (SELECT 1) IN (SELECT 2): Jump at the root of the IN subquery
+    let pred = Expr::InSubquery(datafusion_expr::expr::InSubquery::new(Box::new(Expr::ScalarSubquery(sq(values(1)))), sq(values(2)), false));
+    let filter = LogicalPlanBuilder::from(values(3)).filter(pred).unwrap().build().unwrap();
+    fixed_subq(rep, "nested-in-subquery", filter, &LogicalPlan::Subquery(sq(values(2))));
+}
